@@ -406,6 +406,182 @@ def check_k4(chk, mods, cfg):
     chk.expect("K4", "constant array subscripts [%s]" % cfg, n, 5)
 
 
+def check_register_effect(chk, m, cfg):
+    """K5.insert-effect: console_register evaluated on an abstract table for every fill level k (0..N-1 entries, sorted, the rest
+    NULL) and every place t (0..k) at which the new command sorts: the comparison of a table entry's name with the new name is
+    positive exactly for entries at or after t; entries are opaque labels.  The segments of the function (cut at loop heads) are
+    stepped with their conditions evaluated on that table; result required: entries 0..t-1 unchanged, the new command at t,
+    entries t..k-1 moved up by one, 0 returned.  (Finite evaluation over the index structure; no library code is run.)"""
+    fn = m.fn("console_register")
+    g = m.globals.get("cmd_table")
+    N = g["size"] // m.ptr_size
+    PS = m.ptr_size
+    try:
+        segs = [(s0, p) for s0, p in paths.enumerate_segments(fn, m) if p.end != "unreachable"]
+    except AnalysisError as e:
+        chk.unknown("K5.insert-effect", "console_register[%s]" % cfg, str(e)[:150], fn.loc)
+        return
+    NEW, SENT = 999, 998
+    name_off = 0
+
+    class Bail(Exception):
+        pass
+
+    class Violation(Exception):
+        pass
+
+    def run_scenario(k, t):
+        table = [1000 + j for j in range(k)] + [SENT] + [0] * (N - k - 1)
+        order = lambda lab: 2 * t if lab == NEW else 2 * (lab - 1000) + 1
+
+        def slot_index(ptr, env):
+            root, off, var = ptr_parts(ptr)
+            if root != ("g", "cmd_table"):
+                return None
+            b = off + sum(ev(v, env) * sc for v, sc in var)
+            if b % PS or not (0 <= b // PS < N):
+                raise Bail("table access at byte offset %d is outside / misaligned" % b)
+            return b // PS
+
+        def name_of(x, env):
+            """label whose name string x designates"""
+            v = ev(x, env)
+            if v == 0:
+                raise Violation("a NULL name (the sentinel's) is passed to the comparison function")
+            if v < 5000:
+                raise Bail("name operand %s" % fmt(x)[:40])
+            return v - 5000
+
+        def ev(x, env):
+            k_ = x[0]
+            if k_ == "c":
+                return x[2]
+            if k_ == "null":
+                return 0
+            if k_ == "arg" and x[1] == 0:
+                return NEW
+            if k_ == "sym":
+                if x not in env:
+                    raise Bail("value %s" % fmt(x))
+                return env[x]
+            if k_ == "cast":
+                v = ev(x[4], env)
+                if x[1] == "zext":
+                    return v & paths.mask(x[2]) if x[2] else v
+                if x[1] == "trunc":
+                    return v & paths.mask(x[3]) if x[3] else v
+                if x[1] == "sext":
+                    v &= paths.mask(x[2])
+                    return (v - (1 << x[2])) & paths.mask(x[3]) if v >> (x[2] - 1) else v
+                return v
+            if k_ == "b":
+                r = paths.fold_bin(x[1], x[2], ("c", x[2], ev(x[3], env) & paths.mask(x[2])), ("c", x[2], ev(x[4], env) & paths.mask(x[2])))
+                if r is None:
+                    raise Bail("operation %s" % x[1])
+                return r[2]
+            if k_ == "icmp":
+                bits = paths.expr_bits(x[2]) or paths.expr_bits(x[3]) or 64
+                return paths.fold_icmp(x[1], ("c", bits, ev(x[2], env) & paths.mask(bits)), ("c", bits, ev(x[3], env) & paths.mask(bits)))[2]
+            if k_ == "ld":
+                si = slot_index(x[1], env)
+                if si is not None:
+                    return table[si]
+                root, off, var = ptr_parts(x[1])
+                if not var and off == 0:
+                    # ->name (the first member) of the new command or of a table entry; the sentinel's name is NULL
+                    r = strip_casts(root)
+                    if r == ("arg", 0):
+                        return 5000 + NEW
+                    if r[0] == "ld" and slot_index(r[1], env) is not None:
+                        lab = table[slot_index(r[1], env)]
+                        if lab == 0:
+                            raise Violation("an empty (NULL) slot of the table is dereferenced: the scan ran past the sentinel")
+                        return 0 if lab == SENT else 5000 + lab
+                raise Bail("load %s" % fmt(x)[:40])
+            if k_ == "call" and isinstance(x[1], str) and x[1] in ("strcmp", "strcasecmp", "strncmp", "strncasecmp", "strcoll") and len(x[2]) >= 2:
+                a, b = order(name_of(x[2][0], env)), order(name_of(x[2][1], env))
+                return (1 if a > b else -1 if a < b else 0) & 0xffffffff
+            raise Bail("expression %s" % fmt(x)[:40])
+        cur, env = fn.entry.name, {}
+        for step in range(4 * N + 8):
+            cands = []
+            for s0, p in segs:
+                if s0 != cur:
+                    continue
+                try:
+                    if all(bool(ev(c, env)) == bool(tk) for c, tk, i_ in p.conds):
+                        cands.append(p)
+                except Bail:
+                    raise
+            if len(cands) != 1:
+                raise Bail("%d segments from %s are enabled" % (len(cands), cur))
+            p = cands[0]
+            for e in p.events:
+                if e.kind == "store":
+                    si = slot_index(e.ptr, env) if ptr_parts(e.ptr)[0] == ("g", "cmd_table") else None
+                    if si is not None:
+                        table[si] = ev(e.val, env)
+                elif e.kind in ("memcpy", "memset") and ptr_parts(e.ptr)[0] == ("g", "cmd_table"):
+                    if e.kind == "memset":
+                        raise Bail("memset on the table")
+                    d0, s0_ = slot_index(e.ptr, env) if ev(e.extra, env) else 0, None
+                    ln = ev(e.extra, env)
+                    if ln % PS:
+                        raise Bail("block move of %d bytes" % ln)
+                    cnt = ln // PS
+                    if cnt:
+                        d0 = slot_index(e.ptr, env)
+                        s0_ = slot_index(e.val, env)
+                        if d0 + cnt > N or s0_ + cnt > N:
+                            return ("move", "a block move of %d entries from slot %d to slot %d runs past the table" % (cnt, s0_, d0))
+                        is_move = "memmove" in (e.inst.callee or "")
+                        if not is_move and abs(d0 - s0_) < cnt:
+                            return ("move", "memcpy on overlapping ranges (slots %d.. and %d.., %d entries)" % (s0_, d0, cnt))
+                        chunk = table[s0_:s0_ + cnt]
+                        table[d0:d0 + cnt] = chunk
+            if p.end == "ret":
+                want = [1000 + j for j in range(t)] + [NEW] + [1000 + j for j in range(t, k)] + [SENT] + [0] * (N - k - 2)
+                rv = ev(p.ret, env) if p.ret is not None else None
+                if table != want:
+                    lost = [j for j in range(k) if 1000 + j not in table]
+                    return ("table", "with %d registered commands and the new one sorting at position %d the table ends up %s" % (
+                        k, t, ("without entry %d (it can no longer be found)" % lost[0]) if lost else
+                        ("without the new command" if NEW not in table else
+                         "without its NULL-named sentinel (every scan runs off the end)" if SENT not in table else "in a different order")))
+                if rv not in (0, None):
+                    return ("ret", "returns %s after a successful insertion" % rv)
+                return None
+            if not p.end.startswith("cut:"):
+                raise Bail("segment ends at %s" % p.end)
+            env2 = dict(env)
+            for name, expr in (p.carried or {}).items():
+                env2[("sym", name)] = ev(expr, env)
+            env = env2
+            cur = p.end[4:]
+        raise Bail("no return within %d steps" % (4 * N + 8))
+    bad = None
+    n = 0
+    try:
+        for k in range(N - 1):
+            for t in range(k + 1):
+                n += 1
+                try:
+                    r = run_scenario(k, t)
+                except Violation as v:
+                    r = ("deref", "with %d registered commands and the new one sorting at position %d: %s" % (k, t, v))
+                if r is not None:
+                    bad = r
+                    break
+            if bad:
+                break
+    except Bail as b:
+        chk.unknown("K5.insert-effect", "console_register[%s]" % cfg, "console_register is outside the evaluated fragment: %s" % b, fn.loc)
+        return
+    chk.ob("K5.insert-effect", "console_register[%s]" % cfg, bad is None,
+           "for every fill level 0..%d and every sorting position the table afterwards is the old entries with the new command inserted "
+           "in place and the sentinel still last (%d scenarios)" % (N - 2, n) if bad is None else bad[1], fn.loc, fn.name)
+
+
 def check_k5(chk, m, cfg):
     fn = m.fn("console_register")
     chk.note_fn(fn)
@@ -1127,6 +1303,7 @@ def run(chk):
         check_k3(chk, m, cfg, L)
         check_k4(chk, [m], cfg)
         check_k5(chk, m, cfg)
+        check_register_effect(chk, m, cfg)
         check_k5_order(chk, m, cfg)
         check_k6_k7(chk, m, cfg)
         check_k8(chk, m, cfg, L)
